@@ -115,8 +115,19 @@ mod imp {
         // a line comment swallows the rest of the line in the text too: nothing to fix up, the
         // model does the same with the pieces
         let text = render(ps, r);
-        let obs = match lex_names(&text) { Some(v) => v.join(" "), None => "ERR".into() };
-        println!("A\t{}\tQAsi {}\t{}\t{}", meta, coq_pieces(ps), obs, esc(&text));
+        let names = lex_names(&text);
+        let obs = match &names { Some(v) => v.join(" "), None => "ERR".into() };
+        // direct oracle on the real lexer (no model): the same pieces with extra blanks between
+        // pieces and extra blank lines after newlines must give the same token kinds
+        let mut alt: Vec<P> = Vec::new();
+        for p in ps {
+            if r.chance(1, 3) { alt.push(P::Blank); }
+            alt.push(*p);
+            if *p == P::NL { for _ in 0..r.below(3) { alt.push(if r.chance(1, 2) { P::NL } else { P::Blank }); } }
+        }
+        let alt_text = render(&alt, r);
+        let same = lex_names(&alt_text) == names;
+        println!("A\t{}\tQAsi {}\t{}\t{}\t{}\t{}", meta, coq_pieces(ps), obs, esc(&text), same as u8, if same { String::new() } else { esc(&alt_text) });
     }
 
     fn kidx(name: &str) -> usize { KINDS.iter().position(|k| k.0 == name).unwrap() }
@@ -272,12 +283,12 @@ mod imp {
         Return(Option<E>), Break, Continue, Expr(E),
     }
 
-    pub struct Gen<'a> { r: &'a mut Rng, fresh: usize, ints: Vec<String>, muts: Vec<String>, vecs: Vec<String>, fns: Vec<(String, usize)>, lams: Vec<String>, depth: usize, in_loop: bool, in_fn: bool }
+    pub struct Gen<'a> { r: &'a mut Rng, fresh: usize, ints: Vec<String>, muts: Vec<String>, vecs: Vec<String>, fns: Vec<(String, usize)>, lams: Vec<String>, depth: usize, in_loop: bool, in_fn: bool, in_lambda: bool, in_while: bool }
 
     impl<'a> Gen<'a> {
         fn name(&mut self, p: &str) -> String { self.fresh += 1; format!("{}{}", p, self.fresh) }
         fn int_expr(&mut self, d: usize) -> E {
-            let c = if d == 0 { self.r.below(3) } else { self.r.below(11) };
+            let c = if d == 0 { self.r.below(3) } else if self.in_lambda { self.r.below(7) } else { self.r.below(11) };
             match c {
                 0 => E::Int(match self.r.below(5) { 0 => self.r.below(10), 1 => self.r.below(1000), 2 => self.r.below(1 << 20), 3 => 0, _ => self.r.below(100000) }),
                 1 | 2 => if self.ints.is_empty() { E::Int(self.r.below(50)) } else { E::Var(self.r.pick(&self.ints).clone()) },
@@ -306,8 +317,8 @@ mod imp {
         fn lambda(&mut self, in_parens: bool) -> E {
             let p = self.name("p");
             let saved = (self.ints.clone(), self.muts.clone(), self.in_loop, self.in_fn);
-            self.ints.push(p.clone());
-            self.in_loop = false; self.in_fn = true;
+            self.ints = vec![p.clone()];
+            self.in_loop = false; self.in_fn = true; self.in_lambda = true;
             let mut body = Vec::new();
             // mostly single-statement bodies: a multi-statement body inside call parentheses is the known class
             if (in_parens && self.r.chance(1, 40)) || (!in_parens && self.r.chance(1, 2)) {
@@ -316,7 +327,7 @@ mod imp {
                 self.ints.push(t);
             }
             body.push(S::Return(Some(self.int_expr(1))));
-            self.ints = saved.0; self.muts = saved.1; self.in_loop = saved.2; self.in_fn = saved.3;
+            self.ints = saved.0; self.muts = saved.1; self.in_loop = saved.2; self.in_fn = saved.3; self.in_lambda = false;
             E::Lambda(vec![p], body)
         }
         fn cond(&mut self) -> E {
@@ -355,21 +366,21 @@ mod imp {
                                let b = if self.r.chance(3, 5) { let n2 = self.r.range_i64(0, 2) as usize; Some(self.block(n2)) } else { None };
                                return S::If(c, a, b, self.r.chance(1, 2)); },
                     9 => if self.depth < 2 { let i = self.name("w"); // bounded while
-                               let saved = self.in_loop; self.in_loop = true;
+                               let saved = (self.in_loop, self.in_while); self.in_loop = true; self.in_while = true;
                                self.ints.push(i.clone());
                                let nb = self.r.range_i64(0, 2) as usize;
                                let mut body = self.block(nb);
                                body.push(S::Inc(i.clone(), true));
-                               self.in_loop = saved;
+                               self.in_loop = saved.0; self.in_while = saved.1;
                                self.ints.pop();
                                // the counter declaration travels with the loop as a Let followed by While: emit as an If-true block to keep one statement
                                return S::If(E::Bool(true), vec![S::Let(true, i.clone(), E::Int(0)),
                                    S::While(E::Bin(Box::new(E::Var(i)), "<", Box::new(E::Int(self.r.below(4)))), body)], None, false); },
-                    10 => if self.depth < 2 { let i = self.name("i"); let saved = self.in_loop; self.in_loop = true;
+                    10 => if self.depth < 2 { let i = self.name("i"); let saved = self.in_loop; let savedw = self.in_while; self.in_loop = true; self.in_while = false;
                                self.ints.push(i.clone());
                                let nb = self.r.range_i64(1, 2) as usize;
                                let body = self.block(nb);
-                               self.ints.pop(); self.in_loop = saved;
+                               self.ints.pop(); self.in_loop = saved; self.in_while = savedw;
                                return S::For(i, E::Int(self.r.below(3)), E::Int(self.r.below(5)), body); },
                     11 => if top && self.fns.len() < 3 { let f = self.name("f"); let np = self.r.range_i64(1, 2) as usize;
                                let ps: Vec<String> = (0..np).map(|_| self.name("a")).collect();
@@ -386,7 +397,7 @@ mod imp {
                                let e = E::VecLit(*self.r.pick(&["Vec", "Array"]), (0..n).map(|_| self.int_expr(1)).collect());
                                self.vecs.push(v.clone()); return S::Let(false, v, e); }
                     13 => { let l = self.name("g"); let e = self.lambda(false); self.lams.push(l.clone()); return S::Let(false, l, e); }
-                    14 => if self.in_loop && self.r.chance(1, 2) { return S::If(self.cond(), vec![if self.r.chance(1, 2) { S::Break } else { S::Continue }], None, false); }
+                    14 => if self.in_loop && self.r.chance(1, 2) { return S::If(self.cond(), vec![if self.in_while || self.r.chance(1, 2) { S::Break } else { S::Continue }], None, false); }
                           else if self.in_fn && !top { return S::If(self.cond(), vec![S::Return(Some(self.int_expr(1)))], None, false); },
                     _ => if !self.fns.is_empty() { let (f, n) = self.r.pick(&self.fns).clone();
                                return S::Expr(E::Call(f, (0..n).map(|_| self.int_expr(1)).collect())); },
@@ -394,7 +405,7 @@ mod imp {
             }
         }
         pub fn program(r: &'a mut Rng) -> Vec<S> {
-            let mut g = Gen { r, fresh: 0, ints: vec![], muts: vec![], vecs: vec![], fns: vec![], lams: vec![], depth: 0, in_loop: false, in_fn: false };
+            let mut g = Gen { r, fresh: 0, ints: vec![], muts: vec![], vecs: vec![], fns: vec![], lams: vec![], depth: 0, in_loop: false, in_fn: false, in_lambda: false, in_while: false };
             let mut v = vec![S::Fn("apply1".into(), vec!["fz".into(), "az".into()], vec![S::Return(Some(E::Call("fz".into(), vec![E::Var("az".into())])))])];
             let n = g.r.range_i64(4, 10);
             for _ in 0..n { v.push(g.stmt()); }
@@ -465,7 +476,8 @@ mod imp {
         }
         /// r-value position: may be wrapped in redundant parentheses
         fn rv(&mut self, e: &E) {
-            let wrap = self.fam == Fam::Parens && self.r.chance(1, 3);
+            let multi_lambda = matches!(e, E::Lambda(_, b) if b.len() > 1);
+            let wrap = self.fam == Fam::Parens && if multi_lambda { self.r.chance(1, 12) } else { self.r.chance(1, 3) };
             if wrap { self.applied += 1; let n = 1 + self.r.below(2) as usize; for _ in 0..n { self.o.push('('); } self.paren += n;
                       self.expr(e); self.paren -= n; for _ in 0..n { self.o.push(')'); } }
             else { self.expr(e); }
@@ -532,6 +544,9 @@ mod imp {
     fn same(a: &Outcome, b: &Outcome) -> bool {
         if a.class != b.class { return false; }
         if a.class == "compile-error" { return true; }
+        // cut off by the instruction budget: the two texts may compile to different instruction counts
+        // (Grouping nodes); what was printed before the cut must agree
+        if a.class == "budget" { return a.output.starts_with(&b.output) || b.output.starts_with(&a.output); }
         a.output == b.output && a.value == b.value
     }
 
